@@ -352,7 +352,8 @@ func (vc *VC) embFn(T types.Type, field string) string {
 		vc.declared[n] = true
 		vc.emit(fmt.Sprintf("(declare-fun %s (Int Int) Int)", n))
 		// embedded objects are non-nil
-		vc.emit(fmt.Sprintf("(assert (forall ((o Int) (f Int)) (! (< 0 (%s o f)) :pattern ((%s o f)))))", n, n))
+		// and are exactly as old as the object they are embedded in
+		vc.emit(fmt.Sprintf("(assert (forall ((o Int) (f Int)) (! (and (< 0 (%s o f)) (= (>= (%s o f) $A0) (>= o $A0))) :pattern ((%s o f)))))", n, n, n))
 	}
 	return n
 }
